@@ -54,6 +54,23 @@ def run_case(case):
                                    family='rand' if kw else None, **kw)
     mode = 'extended' if weakly else 'strict'
     pool = gen.gen_queries(rng, sig, conds, 7, extra_atom_p=0.0)
+    twins = rng.random() < 0.5
+    if twins:
+        # differ only below nesting depth 6; prefer a pair whose (reference) answers differ, so that a
+        # confusion between the two is observable
+        from .. import cref
+        rb = rm.Base(sig, conds)
+        rs = rm.Setup(rb, weakly)
+        cs = cref.CSys(rb) if system == 'c-inference' else None
+        for _ in range(8):
+            t1, t2 = gen.deep_twins(rng, sig, conds)
+            a1 = cs.c_inference(*rb.q(*t1))[0] if cs else rm.answer(rs, system, *rb.q(*t1))
+            a2 = cs.c_inference(*rb.q(*t2))[0] if cs else rm.answer(rs, system, *rb.q(*t2))
+            if a1 != a2:
+                bump('deep_twin_pairs_with_different_answers')
+                break
+        pool[5], pool[6] = t1, t2
+        bump('histories_with_deep_twin_queries')
     bdesc = base_desc(sig, conds)
     texts = [fml.cond_text(*q) for q in pool]
 
@@ -81,6 +98,10 @@ def run_case(case):
         if rng.random() < 0.3 and script:
             idxs = list(script[-1]['idxs'])
             rng.shuffle(idxs)
+        if twins and ci < 2 and rng.random() < 0.8:
+            idxs[rng.randrange(len(idxs))] = 5 + ci               # one twin per call on the same manager
+            if rng.random() < 0.3:
+                idxs.append(6 - ci)                               # or both in one batch
         keyclass = rng.choice(['1..n', 'arbitrary', 'zero-based'])
         if keyclass == '1..n':
             keys = list(range(1, len(idxs) + 1))
